@@ -14,6 +14,8 @@ NOTES={
  'C15_D':'missed before the Apply loop\'s closed callee list counted for C15',
  'C05_F':'missed before the success-means-moved clause and move\'s closed callee list counted for C05',
  'C18_F':'missed before the failures-have-causes clauses were added',
+ 'C02_F':'missed until the write-set defect was repaired (the new clauses on doMergePatch had held vacuously for object documents)',
+ 'C14_G':'missed before the call-site clauses on ensurePathExists\' invalid-index errors were added',
 }
 cur={}
 order=[]
